@@ -193,6 +193,33 @@ fn check_value(v: &Variable, interp: &Interpreter, acc: &mut Acc) {
 }
 
 /// integer literal forms: (text, mathematical value)
+/// Character ladder: the code points where the printed form of a character changes - the first
+/// and last code point of every escape length (16^k - 1, 16^k for k = 1..5, U+10FFFF), the
+/// neighbours of the surrogate gap, and one member of each general category that Debug treats
+/// specially (control, format, combining, private use, unassigned, separators, noncharacters) -
+/// alone, between letters, before a hex digit and a brace, doubled; top level and nested
+fn character_ladder() -> Vec<Variable> {
+    let mut cps: Vec<u32> = vec![0x10FFFF, 0x10FFFE, 0x10FFFD, 0xD7FF, 0xE000, 0xF8FF, 0xFFFD, 0xFFFE, 0xFFFF, 0x1FFFE, 0xFFFFF, 0x100000, 0xE0001, 0xE0100, 0xF0000];
+    for k in 1..=5u32 {
+        let b = 16u32.pow(k);
+        cps.extend([b - 1, b, b + 1]);
+    }
+    cps.extend([0x0, 0x7, 0x1F, 0x20, 0x22, 0x27, 0x5C, 0x7E, 0x7F, 0x80, 0x85, 0x9F, 0xA0, 0xAD, 0x300, 0x301, 0x378, 0x600, 0x200B, 0x200E, 0x2028, 0x2029, 0x202E, 0x2060, 0x3000, 0xFEFF, 0xFE0F, 0x1F600, 0x1D173, 0x110BD]);
+    cps.sort();
+    cps.dedup();
+    let mut out = Vec::new();
+    for cp in cps {
+        let Some(c) = char::from_u32(cp) else { continue };
+        let strings = [format!("{c}"), format!("a{c}b"), format!("{c}1"), format!("{c}}}"), format!("{c}{c}"), format!("\\{c}"), format!("{c}\\"), format!("\"{c}")];
+        for s in strings {
+            out.push(Variable::from(s.as_str()));
+        }
+        out.push(arr(vec![Variable::from(format!("{c}").as_str()), 1i64.into()]));
+        out.push(tup(vec![1i64.into(), Variable::from(format!("x{c}").as_str())]));
+    }
+    out
+}
+
 fn int_forms() -> Vec<(String, u128)> {
     let mut out: Vec<(String, u128)> = Vec::new();
     let mags: Vec<u128> = vec![
@@ -293,6 +320,9 @@ pub fn run(tier: &str) -> i32 {
     all.extend(d1);
     all.extend(d2);
     all.extend(chains);
+    let ladder = character_ladder();
+    let n_ladder = ladder.len();
+    all.extend(ladder);
     let n = all.len();
     let accs = par_fold(
         n,
@@ -358,6 +388,7 @@ pub fn run(tier: &str) -> i32 {
         "transitions": round_trips + n_forms,
         "traces_validated_against_impl": round_trips + n_forms,
         "values": values,
+        "of_which_character_ladder_strings (first / last code point of every escape length, surrogate-gap neighbours, one member of each specially printed category; 10 placements each)": n_ladder,
         "scalars": s.len(),
         "integer_literal_forms": forms.len(),
         "distinct_outcomes": shapes.len(),
